@@ -5,3 +5,11 @@ set -e
 cd /verif
 .build/bin/overlaygen -conf overlay.base.conf,cmd/c14/overlay-race.conf -out .build/overlay-c14race >/dev/null
 go build -race -tags verif -overlay .build/overlay-c14race/overlay.json -o .build/bin/c14race ./cmd/c14
+# the real relic binary (.build/bin/c14relic) from /repo's main package (honouring
+# VERIF_MUTANT_DIR) through the base overlay, without C14's shims: `relic serve`
+# for the signal phase
+export GOFLAGS=-mod=mod GOPROXY=off GOSUMDB=off GOTOOLCHAIN=local
+export GOCACHE=/verif/.build/gocache
+export CGO_ENABLED=${CGO_ENABLED:-1}
+flock .build/overlaygen.lock .build/bin/overlaygen -conf overlay.base.conf,cmd/c14/cli.overlay.conf -out .build/overlay-c14cli > .build/overlay-c14cli.log 2>&1
+go build -tags verif -overlay .build/overlay-c14cli/overlay.json -o .build/bin/c14relic verif/c14relic
